@@ -187,8 +187,12 @@ fn main() {
     let k = &known[*i];
     println!("KNOWN-FINDING: property={} {} {} (observed {} time(s) in this run)", k.property, k.raw_key, k.what, n);
   }
+  let replay_path = format!("{}/replays/{}-{}-{}.json", root, prop, tier.name(), seed);
+  if log.unknown_total == 0 {
+    let _ = std::fs::remove_file(&replay_path);
+  }
   if log.unknown_total > 0 {
-    let path = format!("{}/replays/{}-{}-{}.json", root, prop, tier.name(), seed);
+    let path = replay_path.clone();
     let _ = std::fs::create_dir_all(format!("{}/replays", root));
     let mut s = String::new();
     let _ = write!(s, "{{\n \"property\": {}, \"tier\": {}, \"seed\": {},\n \"total_unlisted_violations\": {},\n \"violations\": [\n", json_str(&prop), json_str(tier.name()), seed as i64, log.unknown_total);
